@@ -36,7 +36,7 @@ def run(chk):
                 plan = [{"o": "ok"}, {"o": "ok", "status": {"amount": [1]}}, {"o": "pending"}, {"o": "abort", "code": code, "abort_receipt": rn}]
                 extra.append({"config": {"max": 1}, "term": {"dangling": []}, "calls": [{"op": "begin", "token": [97]}, {"op": op, "token": [97], "amount": [1]}],
                               "plan": {"exchanges": plan}})
-            for dcode in (180, 181, 0):
+            for dcode in (180, 181, 0, 160):
                 plan = [{"o": "ok"}, {"o": "ok", "status": {"amount": [1]}}, {"o": "pending"}, {"o": "abort", "code": dcode}, {"o": "ok"}]
                 extra.append({"config": {"max": 1}, "term": {"dangling": [4711]}, "calls": [{"op": "begin", "token": [97]}, {"op": op, "token": [97], "amount": [1]}],
                               "plan": {"exchanges": plan, "default": {"o": "abort", "code": dcode}}})
@@ -46,6 +46,13 @@ def run(chk):
             plan = [{"o": "ok"}, {"o": "ok", "status": {"amount": [1]}}, {"o": "unexpected", "kind": kind}]
             extra.append({"config": {"max": 1}, "term": {"dangling": []}, "calls": [{"op": "begin", "token": [97]}, {"op": op, "token": [97], "amount": [1]}],
                           "plan": {"exchanges": plan}})
+    # configure in the middle of a session wipes the map: the next transaction that closes is the last one open again
+    for mx in (1, 2, 3):
+        for op in ("commit", "cancel"):
+            extra.append({"config": {"max": mx}, "term": {"dangling": []},
+                          "calls": [{"op": "begin", "token": [97]}, {"op": "configure"}, {"op": "begin", "token": [98]}, {"op": op, "token": [98], "amount": [1]},
+                                    {"op": op, "token": [97], "amount": [1]}],
+                          "plan": {"exchanges": [], "default": {"o": "ok", "status": {"amount": [1]}}}})
     # histories in which an earlier call failed: the later call that leaves nothing open must still clean up
     okp = {"o": "ok", "status": {"amount": [1]}}
     for second in ("commit", "cancel"):
